@@ -536,3 +536,228 @@ Proof.
     + intros i Hi. specialize (Hf i). unfold lifted in Hf. rewrite (Hte i Hi), andb_true_r in Hf. auto.
     + apply Forall_ne_inh; auto.
 Qed.
+
+(* ------------------------------------------------------------------ AmbiguousIntermediateExpander *)
+(* the alternatives of a children list whose first element may be an '_iambig' node *)
+Definition cil (ks : list tree) : list (list tree) :=
+  match ks with
+  | k0 :: rest =>
+      if is_iambig k0
+      then match ci k0 with [] => [ks] | col => map (fun l => l ++ rest) col end
+      else [ks]
+  | [] => [[]]
+  end.
+
+Lemma ci_Nd d gcs : ci (Nd d gcs) = flat_map (fun gc => cil (kids gc)) gcs.
+Proof.
+  induction gcs as [|gc gcs IH]; [reflexivity|].
+  simpl flat_map. rewrite <- IH. destruct gc as [| |d' [|k0 rest]]; reflexivity.
+Qed.
+
+Lemma cil_nonempty ks : cil ks <> [].
+Proof.
+  destruct ks as [|k0 rest]; simpl; try discriminate.
+  destruct (is_iambig k0); try discriminate. destruct (ci k0); simpl; discriminate.
+Qed.
+
+Lemma aie_X nb cs t' : X (aie nb cs) t' <-> exists l, In l (cil cs) /\ X (nb l) t'.
+Proof.
+  destruct cs as [|c0 rest]; simpl.
+  - split; [intros H; exists []; auto | intros (l & [<-|[]] & H); auto].
+  - destruct (is_iambig c0).
+    + destruct (ci c0) as [|l0 col] eqn:E.
+      * split; [intros H; eexists; split; [left; reflexivity|auto] | intros (l & [<-|[]] & H); auto].
+      * rewrite X_ambig. split.
+        -- intros (k & Hk & Hx). change (In k (map (fun l => nb (l ++ rest)) (l0 :: col))) in Hk.
+           apply in_map_iff in Hk. destruct Hk as (l & <- & Hl).
+           exists (l ++ rest); split; auto. apply (in_map (fun l => l ++ rest)) in Hl. exact Hl.
+        -- intros (l & Hl & Hx). change (In l (map (fun l => l ++ rest) (l0 :: col))) in Hl.
+           apply in_map_iff in Hl. destruct Hl as (l1 & <- & Hl1).
+           exists (nb (l1 ++ rest)); split; auto. apply (in_map (fun l => nb (l ++ rest))) in Hl1. exact Hl1.
+    + split; [intros H; eexists; split; [left; reflexivity|auto] | intros (l & [<-|[]] & H); auto].
+Qed.
+
+Lemma amb_cb_X r cs t' :
+  name_ok r ->
+  (forall l, In l (cil cs) -> Forall ne l /\ forall i, inlined r i -> A2 (nth i l Nn)) ->
+  (X (amb_cb r cs) t' <-> exists l l', In l (cil cs) /\ XL l l' /\ t' = plain r l').
+Proof.
+  intros Hn Hl. unfold amb_cb. rewrite aie_X.
+  assert (H : forall l, In l (cil cs) ->
+            (X (match ae_spec r with [] => plain r | n :: l0 => ae (n :: l0) (plain r) end l) t'
+             <-> exists l', XL l l' /\ t' = plain r l')).
+  { intros l Hin. destruct (Hl l Hin) as (Hne & HA).
+    destruct (ae_spec r) as [|i0 te] eqn:E.
+    - apply plain_X; auto. intros i Hi. apply inlined_props in Hi. rewrite E in Hi. simpl in Hi. destruct Hi as (_ & _ & Hi); discriminate.
+      apply Forall_ne_inh; auto.
+    - apply ae_X; auto. intros i Hi. apply inlined_props in Hi. rewrite E in Hi. tauto. }
+  split.
+  - intros (l & Hin & Hx). apply H in Hx; auto. destruct Hx as (l' & ? & ?). eauto.
+  - intros (l & l' & Hin & Hx & ->). exists l; split; auto. apply H; eauto.
+Qed.
+
+(* ------------------------------------------------------------------ result trees are tidy *)
+(* no '_iambig' node and no '_ambig' without alternatives, at any depth *)
+Fixpoint gdb (t : tree) : bool :=
+  match t with
+  | Nd d ks =>
+      (fix go (ks : list tree) : bool := match ks with [] => true | k :: r => gdb k && go r end) ks
+      && negb (String.eqb d IAMBIG) && (if String.eqb d AMBIG then nonnil ks else true)
+  | _ => true
+  end.
+Definition gd (t : tree) : Prop := gdb t = true.
+
+Lemma gdb_Nd d ks :
+  gdb (Nd d ks) = forallb gdb ks && negb (String.eqb d IAMBIG) && (if String.eqb d AMBIG then nonnil ks else true).
+Proof. reflexivity. Qed.
+
+Lemma gd_Nd d ks : gd (Nd d ks) <->
+  Forall gd ks /\ String.eqb d IAMBIG = false /\ (String.eqb d AMBIG = true -> ks <> []).
+Proof.
+  unfold gd. rewrite gdb_Nd, !andb_true_iff, forallb_forall, Forall_forall, negb_true_iff.
+  split; intros ((H1 & H2) & H3) || intros (H1 & H2 & H3); repeat split; auto.
+  - intros E. rewrite E in H3. destruct ks; [discriminate | discriminate].
+  - destruct (String.eqb d AMBIG); auto. destruct ks; auto. exfalso; apply H3; auto.
+Qed.
+
+Lemma gd_ne t : gd t -> ne t.
+Proof.
+  induction t as [| |d ks IH] using tree_ind2; intros H; try reflexivity.
+  apply gd_Nd in H. destruct H as (H1 & _ & H3). apply ne_Nd; auto.
+  clear H3. induction IH; inversion H1; subst; constructor; auto.
+Qed.
+
+Lemma Forall_gd_ne l : Forall gd l -> Forall ne l.
+Proof. intros H; eapply Forall_impl; [|exact H]. apply gd_ne. Qed.
+
+Lemma gd_not_iambig t : gd t -> is_iambig t = false.
+Proof. destruct t; auto. intros H. apply gd_Nd in H. unfold is_iambig; simpl. tauto. Qed.
+
+Lemma gd_kids t : gd t -> Forall gd (kids t).
+Proof. destruct t; simpl; auto. intros H. apply gd_Nd in H. tauto. Qed.
+
+Lemma gd_leaf_Nn : gd Nn. Proof. reflexivity. Qed.
+
+Lemma gd_nth l i : Forall gd l -> gd (nth i l Nn).
+Proof.
+  intros H. destruct (Nat.lt_ge_cases i (length l)).
+  - rewrite Forall_forall in H. apply H. apply nth_In; auto.
+  - rewrite nth_overflow; auto. reflexivity.
+Qed.
+
+Lemma Forall_repeat {A} (P : A -> Prop) a n : P a -> Forall P (repeat a n).
+Proof. intros H; induction n; simpl; constructor; auto. Qed.
+
+Lemma gd_child_filter ti an cs : Forall gd cs -> Forall gd (child_filter ti an cs).
+Proof.
+  intros H. unfold child_filter. apply Forall_app. split; [|apply Forall_repeat; reflexivity].
+  induction ti as [|[[i ex] nn] ti IH]; simpl; auto. apply Forall_app. split; auto.
+  unfold cf_piece. apply Forall_app. split. apply Forall_repeat; reflexivity.
+  destruct ex. apply gd_kids. apply gd_nth; auto. constructor; auto. apply gd_nth; auto.
+Qed.
+
+Definition names_ok (r : xrule) : Prop :=
+  String.eqb (x_name r) AMBIG = false /\ String.eqb (x_name r) IAMBIG = false.
+
+Lemma gd_plain r cs : names_ok r -> Forall gd cs -> gd (plain r cs).
+Proof.
+  intros (Hn1 & Hn2) H. unfold plain.
+  assert (HF : Forall gd (filtered r cs)).
+  { unfold filtered. destruct (has_filter r); auto. apply gd_child_filter; auto. }
+  assert (HN : gd (Nd (x_name r) (filtered r cs))).
+  { apply gd_Nd. repeat split; auto. rewrite Hn1; discriminate. }
+  destruct (esc_on r); auto. destruct (filtered r cs) as [|f [|? ?]]; auto. inversion HF; auto.
+Qed.
+
+Lemma gd_flatten c : gd c -> gd (flatten_ambig c).
+Proof.
+  intros H. destruct (is_ambig c) eqn:Ha; [|rewrite flatten_not_ambig; auto].
+  apply is_ambig_true in Ha. destruct Ha as (ks & ->).
+  change (flatten_ambig (Nd AMBIG ks)) with (Nd AMBIG (flat_map (fun k => if is_ambig k then kids k else [k]) ks)).
+  apply gd_Nd in H. destruct H as (Hk & _ & Hne). apply gd_Nd. repeat split; auto.
+  - apply Forall_forall. intros k' Hin. apply in_flat_map in Hin. destruct Hin as (k & Hk1 & Hin).
+    rewrite Forall_forall in Hk. specialize (Hk _ Hk1).
+    destruct (is_ambig k). apply gd_kids in Hk. rewrite Forall_forall in Hk; auto.
+    destruct Hin as [<-|[]]; auto.
+  - intros _ E. destruct ks as [|k ks]; [apply Hne; auto|]. simpl in E. apply app_eq_nil in E. destruct E as (E & _).
+    inversion Hk; subst. destruct (is_ambig k) eqn:Hak; [|discriminate].
+    apply is_ambig_true in Hak. destruct Hak as (ks2 & ->). simpl in E. subst.
+    apply gd_Nd in H1. destruct H1 as (_ & _ & H1). apply H1; reflexivity.
+Qed.
+
+Lemma product_nonempty {A} (ls : list (list A)) : Forall (fun l => l <> []) ls -> product ls <> [].
+Proof.
+  induction 1 as [|l ls Hl _ IH]; simpl. discriminate.
+  destruct l as [|x l]; [congruence|]. simpl. destruct (product ls); [congruence|]. simpl. discriminate.
+Qed.
+
+Lemma gd_ae r te cs : names_ok r -> Forall gd cs -> gd (ae te (plain r) cs).
+Proof.
+  intros Hn H. unfold ae. set (cs1 := map flatten_ambig cs).
+  assert (H1 : Forall gd cs1).
+  { unfold cs1. clear -H. induction H; simpl; constructor; auto. apply gd_flatten; auto. }
+  destruct (ae_any te 0 cs1); [|apply gd_plain; auto].
+  apply gd_Nd. repeat split; auto.
+  - apply Forall_forall. intros k Hk. apply in_map_iff in Hk. destruct Hk as (f & <- & Hf).
+    apply In_product in Hf. apply gd_plain; auto.
+    clear -Hf H1. revert Hf. generalize 0. revert f. induction cs1 as [|c cs1 IH]; simpl; intros f i0 Hf;
+      inversion Hf as [|a ? f0 ? Ha Hf0]; subst; constructor; inversion H1 as [|? ? Hc Hcs]; subst.
+    + destruct (is_ambig c && memn i0 te).
+      * apply gd_kids in Hc. rewrite Forall_forall in Hc; auto.
+      * destruct Ha as [<-|[]]; auto.
+    + eapply IH; eauto.
+  - intros _ E. apply map_eq_nil in E. revert E. apply product_nonempty.
+    clear -H1. generalize 0. induction H1 as [|c cs1 Hc _ IH]; simpl; intros i0; constructor; auto.
+    destruct (is_ambig c && memn i0 te) eqn:Ea; [|discriminate].
+    apply andb_true_iff in Ea. destruct Ea as (Ea & _). apply is_ambig_true in Ea. destruct Ea as (ks & ->).
+    apply gd_Nd in Hc. simpl. apply Hc. reflexivity.
+Qed.
+
+Lemma gd_amb_cb r cs : names_ok r -> (forall l, In l (cil cs) -> Forall gd l) -> gd (amb_cb r cs).
+Proof.
+  intros Hn H. unfold amb_cb.
+  set (f1 := match ae_spec r with [] => plain r | n :: l0 => ae (n :: l0) (plain r) end).
+  assert (Hf1 : forall l, Forall gd l -> gd (f1 l)).
+  { intros l Hl. unfold f1. destruct (ae_spec r). apply gd_plain; auto. apply gd_ae; auto. }
+  destruct cs as [|c0 rest]; simpl. apply Hf1; constructor.
+  simpl in H. destruct (is_iambig c0).
+  - destruct (ci c0) as [|l0 col]. apply Hf1. apply H; left; auto.
+    apply gd_Nd. repeat split; auto; try discriminate.
+    apply Forall_forall. intros k Hk. change (In k (map (fun l => f1 (l ++ rest)) (l0 :: col))) in Hk.
+    apply in_map_iff in Hk. destruct Hk as (l & <- & Hl). apply Hf1. apply H.
+    apply (in_map (fun l => l ++ rest)) in Hl. exact Hl.
+  - apply Hf1. apply H; left; auto.
+Qed.
+
+Lemma X_call_collapse ts t' :
+  X (call_ambig (collapse_ambig ts)) t' <-> exists t, In t ts /\ X t t'.
+Proof.
+  assert (H : forall data, X (call_ambig data) t' <-> exists k, In k data /\ X k t').
+  { intros data. unfold call_ambig. destruct data as [|x [|y data]]; try apply X_ambig.
+    split. intros H; exists x; simpl; auto. intros (k & [<-|[]] & H); auto. }
+  rewrite H. unfold collapse_ambig. split.
+  - intros (k & Hk & Hx). apply in_flat_map in Hk. destruct Hk as (t & Ht & Hk). exists t; split; auto.
+    destruct (is_ambig t) eqn:Ha.
+    + apply is_ambig_true in Ha. destruct Ha as (ks & ->). apply X_ambig. eauto.
+    + destruct Hk as [<-|[]]; auto.
+  - intros (t & Ht & Hx). destruct (is_ambig t) eqn:Ha.
+    + pose proof Ha as Ha'. apply is_ambig_true in Ha. destruct Ha as (ks & ->). apply X_ambig in Hx. destruct Hx as (k & Hk & Hx).
+      exists k; split; auto. apply in_flat_map. exists (Nd AMBIG ks). split; auto.
+    + exists t; split; auto. apply in_flat_map. exists t; split; auto. rewrite Ha; simpl; auto.
+Qed.
+
+Lemma gd_call_collapse ts : ts <> [] -> Forall gd ts -> gd (call_ambig (collapse_ambig ts)).
+Proof.
+  intros Hne H.
+  assert (H1 : Forall gd (collapse_ambig ts)).
+  { unfold collapse_ambig. apply Forall_forall. intros k Hk. apply in_flat_map in Hk. destruct Hk as (t & Ht & Hk).
+    rewrite Forall_forall in H. specialize (H _ Ht). destruct (is_ambig t).
+    apply gd_kids in H. rewrite Forall_forall in H; auto. destruct Hk as [<-|[]]; auto. }
+  assert (H2 : collapse_ambig ts <> []).
+  { destruct ts as [|t ts]; [congruence|]. unfold collapse_ambig. simpl. intros E. apply app_eq_nil in E. destruct E as (E & _).
+    inversion H as [|? ? Ht Hts]; subst. destruct (is_ambig t) eqn:Ha; [|discriminate].
+    apply is_ambig_true in Ha. destruct Ha as (ks & ->). apply gd_Nd in Ht. simpl in E. apply Ht; auto. }
+  unfold call_ambig. destruct (collapse_ambig ts) as [|x [|y l]]; try congruence.
+  - inversion H1; auto.
+  - apply gd_Nd. repeat split; auto; discriminate.
+Qed.
